@@ -148,6 +148,27 @@ def r3(ctx):
         sw = [x for x in switch_edges_on(fa, lambda o: o[0] == "disc" and any(is_agg(r, "Some") and "BitfieldUpdate" in term_str(r) for r in roots(o[1])))]
         dom_some = [x for x in sw if x[2].get(1) is not None and fa.dominates(x[2][1], hv[0])]
         ctx.check(P, rule, "have event only when a block was applied", bool(dom_some), "Have send dominated by the Some(bitfield_update) arm", "Have can be sent without a block having been stored", [site_desc(fa, hv[0])])
+    # nothing but "a block was applied" / "the proof carried an upgrade" decides whether the event is sent:
+    # the conditions that dominate a send but not the in-memory commit (which every accepted proof
+    # reaches) are the send's own conditions, and those may only be the presence tests
+    from .c09 import dominating_conditions
+    from ..analysis import term_sig
+    cm = sites(fa, MT_COMMIT)
+    base = set((term_sig(o), tr) for o, tr, _ in dominating_conditions(fa, cm[0])) if cm else set()
+    for s_, what, allowed in ((hv[0], "Have", ("BitfieldUpdate", "proof.block")), (up[0], "DataUpgrade", ("proof.upgrade",))):
+        extra = []
+        for o, tr, _ in dominating_conditions(fa, s_):
+            sg = term_sig(o)
+            if (sg, tr) in base or ev(ctx, o) is not None:
+                continue
+            if isinstance(o, tuple) and o[0] == "disc" and isinstance(o[1], tuple) and o[1][0] in ("poll", "branch"):
+                continue   # completion of an awaited / `?`-checked step (the commit, the periodic flush)
+            if any(a_ in sg for a_ in allowed) and (sg.startswith(("disc(", "is_some(")) and not any(isinstance(x_, tuple) and x_ and x_[0] == "call" and x_[2].split("::")[-1] not in ("is_some", "as_ref", "from") for x_ in subterms(o))):
+                continue   # the presence test itself
+            extra.append("%s is %s" % (sg[:90], tr))
+        ctx.check(P, rule, "%s is announced for every accepted proof that %s" % (what, "stored a block" if what == "Have" else "carried an upgrade"), not extra,
+                  "no condition beyond the presence test guards the send", "the %s event at %s is additionally sent only if [%s]: an accepted proof that %s may go unannounced" % (
+                      what, loc(fa, s_), "; ".join(extra), "made a block available" if what == "Have" else "upgraded the core"), [site_desc(fa, s_)], key="C13|C13.R3|%s|extra condition" % what)
     ctx.check(P, rule, "events come after the in-memory commit", all(fa.dominates(x, s) for x in sites(fa, MT_COMMIT) for s in up + hv), "sends dominated by MerkleTree::commit", "an event can be sent before the tree commit")
 
 
